@@ -297,6 +297,19 @@ def r6_r7(tree, rep):
     rep.check("C10.R7", "process_inbound_queue hands every parked record to the manager", ok, site(pq, CON), key="C10.R7:process_inbound_queue")
 
 
+def timer_accepts_next_connection(tree, rep, rule):
+    from ..automat_x import Program
+    prog = Program(tree)
+    T = prog.machine("TrafficTimer")
+    after_loss = {r.enter for r in T.rows_on("lost_connection")} | {T.initial}
+    for st in sorted(after_loss):
+        r = T.row(st, "got_connection")
+        rep.check(rule, "TrafficTimer[%s] (left behind by a lost connection) accepts got_connection" % st, r is not None,
+                  r.site if r is not None else T.file, key="%s:TrafficTimer[%s].got_connection" % (rule, st),
+                  what="after a connection was lost in some timer state the timer is in %s, where got_connection is not declared: the next "
+                       "connector_connection_made raises NoTransition before the Manager learns of the connection" % st)
+
+
 def r8(tree, rep):
     """the replay needs connector_connection_made to reach Outbound.use_connection on EVERY new connection: what runs before it
     must not raise.  The leader first feeds TrafficTimer.got_connection: that input has to be declared in every timer state a lost
@@ -328,6 +341,22 @@ def r8(tree, rep):
               len(use) == 1 and g.must_pass(use, explicit_only=True) and len(gc) == 1, site(cm, MGR), key="C10.R8:use_connection")
 
 
+def r9(tree, rep):
+    """lemmas owned by neighbours that the exactly-once / in-order claim rests on: (a) a late-registered listener sees open,
+    data, close in the order issued (C13.R4); (b) every record size is transmitted in Noise packets the peer accepts - a record
+    the receiver must reject is retransmitted forever at the head of the queue and blocks everything behind it (C12.R2)"""
+    from .C13 import connect_order
+    connect_order(tree, rep, "C10.R9")
+    from .C12 import _chunking_ok
+    CON_ = "src/wormhole/_dilation/connection.py"
+    for meth, K, op in (("send_record", "NOISE_MAX_PAYLOAD", "encrypt"), ("decrypt_message", "NOISE_MAX_CIPHERTEXT", "decrypt")):
+        fn = tree.func(CON_, "_Record", meth)
+        rep.check("C10.R9", "_Record.%s partitions by %s with the matching single-packet threshold" % (meth, K), _chunking_ok(fn, K, op), site(fn, CON_),
+                  key="C10.R9:%s:chunking" % meth,
+                  what="some record sizes are sent in a Noise packet the receiver rejects: that record is replayed first on every new "
+                       "connection and nothing issued after it is ever delivered")
+
+
 def run(tree, rep, tier):
     r1(tree, rep)
     r2(tree, rep)
@@ -335,6 +364,7 @@ def run(tree, rep, tier):
     r4_r5(tree, rep)
     r6_r7(tree, rep)
     r8(tree, rep)
+    r9(tree, rep)
 
 
 MUTANTS = [
